@@ -78,7 +78,6 @@ func VerifC10CancelThroughPrecompile() {
 	_, gerr := e.ck.GetUnbatchedTxById(e.ctx, id)
 	if err != nil {
 		rt.Cover("refused")
-		rt.Assert(owner != caller || txID.Uint64() != id, "the creator can cancel its own queued withdrawal through the precompile")
 		rt.Assert(e.ms.Equal(before), "a failed precompile call leaves the native state exactly as it was")
 		rt.Assert(gerr == nil, "a withdrawal queued by another account is not cancelled")
 		rt.Assert(len(e.sdb.Logs) == 0, "a failed call leaves no log")
